@@ -86,4 +86,124 @@ theorem hkr_shell (l : FLink F) (data : Codec.Bytes) (now : Nat) :
     · split <;> rfl
     · rfl
 
+/-! ## `keepalive_packet` -/
+
+/-- The telemetry the frame carries: read from the link state at the call. -/
+def kaInfo (l : FLink F) : Codec.ConnInfo :=
+  { connId := l.core.connId % 4294967296,
+    window := l.core.window,
+    inFlight := l.core.inFlight,
+    rttMs := min (Scalar.toNatSat l.rtt.kalman.x) 4294967295,
+    nakCount := Codec.i32ToU32 l.core.cong.nakCount,
+    bitrate := min (Scalar.toNatSat (Scalar.div l.bitrate.current (Scalar.lit 8.0 8 1))) 4294967295 }
+
+theorem keepalivePacket_pkt (l : FLink F) (now : Nat) :
+    (l.keepalivePacket now).2 = Codec.createKeepaliveExt (kaInfo l) now := rfl
+
+/-- What `keepalive_packet` does to the link: send stamps and (maybe) arming the RTT probe. -/
+theorem keepalivePacket_link (l : FLink F) (now : Nat) :
+    (l.keepalivePacket now).1 =
+      { l with core := { l.core with lastSent := some now }, lastKeepaliveSent := some now,
+               rtt := (l.keepalivePacket now).1.rtt } ∧
+    (l.keepalivePacket now).1.rtt.kalman = l.rtt.kalman ∧
+    (l.keepalivePacket now).1.rtt.lastRttMeasMs = l.rtt.lastRttMeasMs ∧
+    ((l.keepalivePacket now).1.rtt = l.rtt ∨
+     (l.rtt.waiting = false ∧
+      (l.keepalivePacket now).1.rtt = { l.rtt with lastKeepaliveSentMs := now, waiting := true })) := by
+  unfold FLink.keepalivePacket
+  dsimp only
+  refine ⟨rfl, ?_, ?_, ?_⟩
+  · split <;> rfl
+  · split <;> rfl
+  · split
+    · rename_i h
+      right
+      refine ⟨?_, rfl⟩
+      simp only [Bool.and_eq_true, Bool.not_eq_true'] at h
+      exact h.1
+    · left; rfl
+
+/-- A second frame built in the same tick carries the same bytes. -/
+theorem keepalivePacket_twice (l : FLink F) (now : Nat) :
+    ((l.keepalivePacket now).1.keepalivePacket now).2 = (l.keepalivePacket now).2 := by
+  rw [keepalivePacket_pkt, keepalivePacket_pkt]
+  have h := keepalivePacket_link l now
+  unfold kaInfo
+  rw [h.2.1]
+  rw [h.1]
+
+theorem keepalive_type (info : Codec.ConnInfo) (now : Nat) :
+    Codec.getPacketTypeS (Codec.createKeepaliveExt info now) = some 0x9000 := by
+  simp [Codec.createKeepaliveExt, Codec.toBE16, Codec.getPacketTypeS, Codec.be16]
+
+theorem reg1_type (id : Codec.Bytes) : Codec.getPacketTypeS (Codec.createReg1 id) = some 0x9200 := by
+  simp [Codec.createReg1, Codec.toBE16, Codec.getPacketTypeS, Codec.be16]
+
+theorem reg2_type (id : Codec.Bytes) : Codec.getPacketTypeS (Codec.createReg2 id) = some 0x9201 := by
+  simp [Codec.createReg2, Codec.toBE16, Codec.getPacketTypeS, Codec.be16]
+
+/-! ## The per-link pass of `handle_housekeeping`, one link at a time -/
+
+/-- A live (not timed out) link's housekeeping: keepalive if due, RTT probe if due, window recovery,
+bitrate, phase, batch regime. -/
+def hkLive (classic : Bool) (now : Nat) (l : FLink F) : FLink F × List (Nat × Codec.Bytes) :=
+  let r1 : FLink F × List (Nat × Codec.Bytes) :=
+    if l.needsKeepalive now then
+      ((l.keepalivePacket now).1, [(l.core.connId, (l.keepalivePacket now).2)])
+    else (l, [])
+  let r2 : FLink F × List (Nat × Codec.Bytes) :=
+    if r1.1.needsRttMeasurement now then
+      ((r1.1.keepalivePacket now).1, [(l.core.connId, (r1.1.keepalivePacket now).2)])
+    else (r1.1, [])
+  let l3 := if !classic then r2.1.performWindowRecovery now else r2.1
+  let l4 := { l3 with bitrate := l3.bitrate.calculate now }
+  ((l4.updatePhase now).recomputeBatchRegime, r1.2 ++ r2.2)
+
+/-- The link after the reconnect branch (before the REG1/REG2 send stamp). -/
+def reconnected (l : FLink F) (now : Nat) : FLink F :=
+  { ((l.recordAttempt now).resetForReconnect now) with
+      failCount := 0, graceDeadline := now + Conn.STARTUP_GRACE_MS }
+
+/-- One link of the pass: link, registration state, wire output. -/
+def hkOne (classic : Bool) (now : Nat) (l : FLink F) (i : Nat) (reg : Reg.Reg) :
+    FLink F × Reg.Reg × List (Nat × Codec.Bytes) :=
+  if l.isTimedOut now then
+    if l.shouldAttemptReconnect now then
+      match reg.pending with
+      | some p =>
+        if p = i then
+          ({ reconnected l now with core := { (reconnected l now).core with lastSent := some now } },
+            (Reg.buildReg1For reg i now).1, [(l.core.connId, (Reg.buildReg1For reg i now).2)])
+        else (reconnected l now, reg, [])
+      | none =>
+        ({ reconnected l now with core := { (reconnected l now).core with lastSent := some now } },
+          reg, [(l.core.connId, Reg.buildReg2 reg)])
+    else (l, reg, [])
+  else ((hkLive classic now l).1, reg, (hkLive classic now l).2)
+
+theorem hkLinksGo_cons (classic : Bool) (now : Nat) (l : FLink F) (rest : List (FLink F)) (i : Nat)
+    (reg : Reg.Reg) :
+    hkLinksGo classic now (l :: rest) i reg =
+      ((hkOne classic now l i reg).1 :: (hkLinksGo classic now rest (i + 1) (hkOne classic now l i reg).2.1).1,
+       (hkLinksGo classic now rest (i + 1) (hkOne classic now l i reg).2.1).2.1,
+       (hkOne classic now l i reg).2.2 ++ (hkLinksGo classic now rest (i + 1) (hkOne classic now l i reg).2.1).2.2) := by
+  rw [hkLinksGo]
+  unfold hkOne
+  split
+  · split
+    · split
+      · split <;> rfl
+      · rfl
+    · rfl
+  · unfold hkLive
+    by_cases h1 : l.needsKeepalive now = true
+    · simp only [h1, if_true]
+      by_cases h2 : (l.keepalivePacket now).1.needsRttMeasurement now = true
+      · simp only [h2, if_true]; rfl
+      · simp only [h2, if_false]; rfl
+    · simp only [h1, if_false]
+      by_cases h2 : l.needsRttMeasurement now = true
+      · simp only [h2, if_true]; rfl
+      · simp only [h2, if_false]; rfl
+
 end Srtla.Keepalive
